@@ -1,5 +1,6 @@
 """Entry point: python3-vt -m mirsym.checks <property> [quick|thorough]"""
 import os
+import re
 import sys
 import time
 import traceback
@@ -503,7 +504,18 @@ def racing_backups(rep, prog, tier, dl):
               'mirsym': {'key': b['key'], 'results': b['results'], 'problems': b['problems']}}
         out, path = runner.replay(sc, 'C07_race2')
         vers = [v for v in (out.get('versions') or []) if v.get('band') != 'b0000']
-        reproduced = bool(out.get('rewritten')) or any(v.get('restore_errors') or not v.get('restore_ok') or (v.get('differs_from_second_tree') and v.get('differs_from_third_tree')) for v in vers) \
+        # native sign of a shared band: a run that was not the first to write a band's head went on to write other files of it
+        # (the hook sees every write before it happens; on a correct tree the second head write is refused and the run ends)
+        head_by, shared = {}, []
+        for who, verb, p in (out.get('ops') or []):
+            if verb == 'write' and re.match(r'b\d+/', p):
+                band = p.split('/')[0]
+                if p.endswith('/BANDHEAD'):
+                    head_by.setdefault(band, who)
+                elif head_by.get(band) not in (None, who):
+                    shared.append('%s wrote %s, the head is %s\'s' % (who, p, head_by[band]))
+        out['shared_band_writes'] = shared[:6]
+        reproduced = bool(shared) or bool(out.get('rewritten')) or any(v.get('restore_errors') or not v.get('restore_ok') or (v.get('differs_from_second_tree') and v.get('differs_from_third_tree')) for v in vers) \
             or (out.get('backup') == 'Ok errors=0' and not any(not v.get('differs_from_second_tree') for v in vers)) \
             or (out.get('gc') == 'Ok errors=0' and not any(not v.get('differs_from_third_tree') for v in vers))
         rep.violation(b['key'], '%s (results %s)' % ('; '.join(b['problems'][:2]), b['results']), path, reproduced)
